@@ -49,19 +49,23 @@ pub fn gen_history_ids(rng: &mut Rng, id_base: u32, scatter: Option<u64>) -> His
     let mut unsupported_at = None;
     let n = rng.range(3, 30);
     let mut note = String::new();
+    // ids that consumers may name BEFORE their (single) definition: the width is decided by what precedes the
+    // consumer, so the same selector / type id may be sized differently before and after it is defined
+    let mut future_vals: Vec<u32> = (0..rng.below(4)).map(|_| fresh()).collect();
+    let mut future_types: Vec<u32> = (0..rng.below(3)).map(|_| fresh()).collect();
     for _ in 0..n {
         let choice = rng.below(10);
         let inst = match choice {
             0..=2 => {
-                let id = fresh();
+                let id = if !future_types.is_empty() && rng.chance(1, 3) { future_types.swap_remove(rng.below(future_types.len())) } else { fresh() };
                 let i = if rng.chance(2, 3) { AInst::named("TypeInt", None, Some(id), vec![AOp::lit(rand_width(rng)), AOp::lit(rng.below(2) as u32)]) } else { AInst::named("TypeFloat", None, Some(id), vec![AOp::lit(rand_width(rng))]) };
                 types.push(id);
                 i
             }
             3..=4 => {
                 // value definition whose result type is a declared type, an undeclared id, or a non-numeric type
-                let t = if types.is_empty() || rng.chance(1, 6) { fresh() } else { *rng.pick(&types) };
-                let id = fresh();
+                let t = if !future_types.is_empty() && rng.chance(1, 10) { *rng.pick(&future_types) } else if types.is_empty() || rng.chance(1, 6) { fresh() } else { *rng.pick(&types) };
+                let id = if !future_vals.is_empty() && rng.chance(1, 3) { future_vals.swap_remove(rng.below(future_vals.len())) } else { fresh() };
                 values.push(id);
                 match rng.below(5) {
                     0 => AInst::named("Undef", Some(t), Some(id), vec![]),
@@ -85,8 +89,8 @@ pub fn gen_history_ids(rng: &mut Rng, id_base: u32, scatter: Option<u64>) -> His
             }
             6..=7 => {
                 // OpConstant / OpSpecConstant
-                let t = if types.is_empty() || rng.chance(1, 8) { fresh() } else { *rng.pick(&types) };
-                let id = fresh();
+                let t = if !future_types.is_empty() && rng.chance(1, 6) { *rng.pick(&future_types) } else if types.is_empty() || rng.chance(1, 8) { fresh() } else { *rng.pick(&types) };
+                let id = if !future_vals.is_empty() && rng.chance(1, 6) { future_vals.swap_remove(rng.below(future_vals.len())) } else { fresh() };
                 let name = if rng.chance(1, 2) { "Constant" } else { "SpecConstant" };
                 match model.width(t) {
                     Width::One => {
@@ -110,7 +114,7 @@ pub fn gen_history_ids(rng: &mut Rng, id_base: u32, scatter: Option<u64>) -> His
             }
             _ => {
                 // OpSwitch on a value (typed through its defining instruction's result type) or unknown id
-                let sel = if values.is_empty() || rng.chance(1, 8) { fresh() } else { *rng.pick(&values) };
+                let sel = if !future_vals.is_empty() && rng.chance(1, 4) { *rng.pick(&future_vals) } else if values.is_empty() || rng.chance(1, 8) { fresh() } else { *rng.pick(&values) };
                 let mut ops = vec![AOp::id(sel), AOp::id(fresh())];
                 let cases = rng.below(5);
                 match model.width(sel) {
@@ -147,7 +151,7 @@ pub fn gen_history_ids(rng: &mut Rng, id_base: u32, scatter: Option<u64>) -> His
 }
 
 fn binary_of(h: &Hist) -> Vec<u8> {
-    let mut w = gram::header(0x0001_0300, 0, 1 << 20);
+    let mut w = gram::header_varied(h.insts.len() as u64 * 31 + h.insts.first().map(|i| i.enc().len() as u64).unwrap_or(0), 1 << 20);
     for i in &h.insts {
         w.extend(i.enc());
     }
@@ -324,7 +328,7 @@ pub fn run(cfg: &Cfg, rep: &mut Report) {
     // boundary-value histories: hundreds of distinct numeric types before the consumers, consumers in a
     // later function typed by module-scope values
     run_stage(cfg, rep, "scale", cfg.n(60, 3000), |idx, rng, r| {
-        let (label, insts) = crate::scale::scale_module(rng, if idx % 2 == 0 { 1 } else { 7 });
+        let (label, insts) = crate::scale::scale_module(rng, [1u64, 7, 11][(idx % 3) as usize]);
         let mut w = gram::header(0x0001_0600, 0, 1 << 22);
         for i in &insts {
             w.extend(i.enc());
